@@ -1270,8 +1270,15 @@ class FileStorage(
                         self._file = open(self._file_name, 'r+b')
                         raise
 
+                    try:
+                        os.rename(self._file_name + '.pack', self._file_name)
+                    except Exception:
+                        # Put the unpacked file back and go on with it.
+                        os.rename(oldpath, self._file_name)
+                        self._file = open(self._file_name, 'r+b')
+                        raise
+
                     # OK, we're beyond the point of no return
-                    os.rename(self._file_name + '.pack', self._file_name)
                     self._file = open(self._file_name, 'r+b')
                     self._initIndex(index, self._tindex)
                     self._pos = opos
